@@ -639,7 +639,7 @@ func vfHwLimitConnection(rnd *rand.Rand) (vfHwCfg, []vfHwBlk) {
 	for i := rnd.Intn(3); i > 0; i-- {
 		lit(five(c.Ms), five(c.Ms), rnd.Intn(2) == 0, rnd.Intn(2) == 0)
 	}
-	if rnd.Intn(4) == 0 {
+	if rnd.Intn(3) == 0 {
 		// an integer that runs to or past the longest accepted form: prefix-full octet, k octets
 		// 0x80, then a final group g (k = 8 is the documented maximum; a non-zero g makes the
 		// value astronomically large however a decoder truncates it)
@@ -648,7 +648,12 @@ func vfHwLimitConnection(rnd *rand.Rand) (vfHwCfg, []vfHwBlk) {
 		g := []byte{0, 1, 2, 0x40, 0x7f}[rnd.Intn(5)]
 		b.reprs = append(b.reprs, len(b.buf))
 		b.buf = append(b.buf, hi)
-		b.buf = append(b.buf, bytes.Repeat([]byte{0x80}, k)...)
+		cont := []byte{0x80, 0xff}[rnd.Intn(2)] // 0xff: every payload bit set, values up to 2^63 and beyond
+		if rnd.Intn(2) == 0 {
+			// the largest values the 10-octet form can carry: 2^63-1 plus the prefix and just below
+			k, cont, g = 8, 0xff, []byte{0x7f, 0x7e, 0x3f, 0x40}[rnd.Intn(4)]
+		}
+		b.buf = append(b.buf, bytes.Repeat([]byte{cont}, k)...)
 		b.buf = append(b.buf, g)
 		if hi != 0xff && hi != 0x3f {
 			b.appendString("v", false, 0)
